@@ -1002,6 +1002,9 @@ func (in *Interp) unop(fr *frame, x *ssa.UnOp) Value {
 	v := in.get(fr, x.X)
 	switch x.Op {
 	case token.MUL:
+		if se, ok := v.(*symElem); ok {
+			return in.loadSymElem(se)
+		}
 		p := v.(*Value)
 		if p == nil {
 			in.goPanic("nil pointer dereference (load)")
@@ -1531,9 +1534,58 @@ func (in *Interp) indexAddr(fr *frame, x *ssa.IndexAddr) Value {
 	}
 	i := in.checkIndex(idx, len(elems))
 	if i < 0 {
+		if len(elems) > 0 && readOnlyUse(x) {
+			if _, ok := elems[0].(BV); ok {
+				// a look-up (the address is only loaded from): no fork over the index values,
+				// the load yields a table term / ite chain over the elements
+				return &symElem{E: elems, Idx: idx}
+			}
+		}
 		i = in.concretize(idx, 0, len(elems)-1)
 	}
 	return &elems[i]
+}
+
+// symElem is the address elems[idx] for an in-range symbolic idx that is only ever loaded from.
+type symElem struct {
+	E   []Value
+	Idx BV
+}
+
+// readOnlyUse: every use of the address is a load.
+func readOnlyUse(x *ssa.IndexAddr) bool {
+	refs := x.Referrers()
+	if refs == nil || len(*refs) == 0 {
+		return false
+	}
+	for _, r := range *refs {
+		u, ok := r.(*ssa.UnOp)
+		if !ok || u.Op != token.MUL {
+			return false
+		}
+	}
+	return true
+}
+
+func (in *Interp) loadSymElem(se *symElem) Value {
+	in.onRead(&se.E[0])
+	w := se.E[0].(BV).W
+	if w == 8 && len(se.E) <= 256 {
+		conc := true
+		buf := make([]byte, 256)
+		for k, e := range se.E {
+			b := in.resolveBV(e.(BV))
+			if b.T != nil {
+				conc = false
+				break
+			}
+			buf[k] = byte(b.C)
+		}
+		if conc {
+			return in.mkBV(in.tc.Table(string(buf), in.bvTerm(in.convertBV(in.resolveBV(se.Idx), false, 8))))
+		}
+	}
+	return in.symSelect(se.E, se.Idx)
 }
 
 func (in *Interp) index(fr *frame, x *ssa.Index) Value {
